@@ -86,7 +86,11 @@ Record facts := mkFacts {
   f_singleton_global : bool;                      (* _BaseSession.__new__ keeps one instance for all engine classes *)
   f_noconn : list string;                         (* engines whose Builder.session ignores the stored connection *)
   f_selfref : list string;                        (* engines whose Builder imports pyspark.sql.session when used *)
-  f_cached : list string                          (* engines whose Builder.session is a cached_property *)
+  f_cached : list string;                         (* engines whose Builder.session is a cached_property *)
+  f_chain : list (string * nat);                  (* Builder._set_config(key, value): the elif chain, first match wins;
+                                                     slot 0/1/2 = input/output/execution dialect, 3 = conn, 4 = schema *)
+  f_mapkeys : list (string * nat);                (* Builder._set_config(map=...): the `if K in map` tests, in order *)
+  f_defaults : list (string * (nat * (nat * nat)))  (* engine -> DEFAULT_INPUT/OUTPUT/EXECUTION_DIALECT of its Builder *)
 }.
 
 Definition pkg_names fa e := assoc_list e (f_pkg_names fa).
@@ -132,6 +136,8 @@ Definition modref_eqb (a b : modref) : bool :=
 
 Inductive sess_state := SNone | SLive (e : string) (c : option nat) | SPoisoned.
 
+Inductive lastdial := LNone | LUnknown | LSome (d : nat * (nat * nat)).
+
 Record state := mkState {
   top : option modref;                  (* sys.modules["pyspark"] *)
   sql : option modref;                  (* sys.modules["pyspark.sql"] *)
@@ -141,17 +147,22 @@ Record state := mkState {
   config : list (string * nat);         (* ACTIVATE_CONFIG, values as identities *)
   sess : sess_state;                    (* _BaseSession._instance *)
   bcache : list (string * (string * option nat));   (* engine -> the session its Builder has cached (engine, connection) *)
+  bd : list (string * nat * nat);       (* (engine, slot, value): dialect attributes of that engine's Builder object,
+                                           newest first; the Builder is a class attribute and lives as long as the process *)
+  lastd : lastdial;                     (* input/output/execution dialect of the session the last getOrCreate returned *)
   junk : bool                           (* a failed import of the real pyspark.testing left sub-modules of it (and of
                                            pyspark.pandas) in sys.modules; re-importing any of them fails again *)
 }.
-Definition init_state : state := mkState None None None [] [] [] SNone [] false.
+Definition init_state : state := mkState None None None [] [] [] SNone [] [] LNone false.
 
-Definition set_pys (s : state) t q ts sb := mkState t q ts sb (pattr s) (config s) (sess s) (bcache s) (junk s).
-Definition set_subs (s : state) sb := mkState (top s) (sql s) (tst s) sb (pattr s) (config s) (sess s) (bcache s) (junk s).
-Definition set_pattr (s : state) pa := mkState (top s) (sql s) (tst s) (subs s) pa (config s) (sess s) (bcache s) (junk s).
-Definition set_sess (s : state) x := mkState (top s) (sql s) (tst s) (subs s) (pattr s) (config s) x (bcache s) (junk s).
-Definition set_bcache (s : state) b := mkState (top s) (sql s) (tst s) (subs s) (pattr s) (config s) (sess s) b (junk s).
-Definition set_junk (s : state) := mkState (top s) (sql s) (tst s) (subs s) (pattr s) (config s) (sess s) (bcache s) true.
+Definition set_pys (s : state) t q ts sb := mkState t q ts sb (pattr s) (config s) (sess s) (bcache s) (bd s) (lastd s) (junk s).
+Definition set_subs (s : state) sb := mkState (top s) (sql s) (tst s) sb (pattr s) (config s) (sess s) (bcache s) (bd s) (lastd s) (junk s).
+Definition set_pattr (s : state) pa := mkState (top s) (sql s) (tst s) (subs s) pa (config s) (sess s) (bcache s) (bd s) (lastd s) (junk s).
+Definition set_sess (s : state) x := mkState (top s) (sql s) (tst s) (subs s) (pattr s) (config s) x (bcache s) (bd s) (lastd s) (junk s).
+Definition set_bcache (s : state) b := mkState (top s) (sql s) (tst s) (subs s) (pattr s) (config s) (sess s) b (bd s) (lastd s) (junk s).
+Definition set_junk (s : state) := mkState (top s) (sql s) (tst s) (subs s) (pattr s) (config s) (sess s) (bcache s) (bd s) (lastd s) true.
+Definition set_bd (s : state) b := mkState (top s) (sql s) (tst s) (subs s) (pattr s) (config s) (sess s) (bcache s) b (lastd s) (junk s).
+Definition set_lastd (s : state) d := mkState (top s) (sql s) (tst s) (subs s) (pattr s) (config s) (sess s) (bcache s) (bd s) d (junk s).
 
 (* ------------------------------------------------------------------------------------------------ *)
 (** * events and observations *)
@@ -169,12 +180,15 @@ Inductive event :=
 | CtxExit (k : exitkind)
 | GetOrCreate
 | Import (fm : form) (p : path)
-| LoadFunctions (e : string).
+| LoadFunctions (e : string)
+| BuilderConfig (single : bool) (kv : list (string * nat))   (* SparkSession.builder.config(k, v) / .config(map={...}) *)
+| ReadDialects.                                             (* input/output/execution dialect of the session just returned *)
 
 Inductive eobs :=
 | EOk | ERaised
 | EMod (m : modref) | EImportError | EError
 | GReal | GSession (e : string) (c : option nat) | GRaise | GUnknown
+| EDial (d : option (nat * (nat * nat)))
 | EOther.                         (* something the harness could not classify; never equal to a model answer *)
 
 (* ------------------------------------------------------------------------------------------------ *)
@@ -346,7 +360,7 @@ Definition attrs_after_import (e : string) (s : state) : list (string * string) 
 Definition activate (e : string) (c : option nat) (kv : list (string * nat)) (s : state) : eobs * state :=
   let cfg := store_config c kv s in
   match assoc e (f_engines fa) with
-  | None => (ERaised, mkState (Some (Mock None)) (sql s) (Some Testing) (subs s) (pattr s) cfg (sess s) (bcache s) (junk s))
+  | None => (ERaised, mkState (Some (Mock None)) (sql s) (Some Testing) (subs s) (pattr s) cfg (sess s) (bcache s) (bd s) (lastd s) (junk s))
   | Some prefix =>
       let pa1 := attrs_after_import e s in
       let regs := reg_files e prefix pa1 in
@@ -354,7 +368,7 @@ Definition activate (e : string) (c : option nat) (kv : list (string * nat)) (s 
       (if length good =? length regs then EOk else ERaised,
        mkState (Some (Mock (Some e))) (Some (SfPkg e)) (Some Testing)
                (fold_left (fun acc f => (f, Sf e f) :: acc) good (subs s))
-               (pa1 ++ map (pair e) good) cfg (sess s) (bcache s) (junk s))
+               (pa1 ++ map (pair e) good) cfg (sess s) (bcache s) (bd s) (lastd s) (junk s))
   end.
 
 (** ** deactivate *)
@@ -371,8 +385,8 @@ Definition deactivate (s : state) : eobs * state :=
    if (any_present s || junk s) && installed en
    then mkState (Some Real) (Some Real)
                 (if is_some (tst s) && rimp_eqb (testing_imp en) ROk then Some Real else None)
-                (map (fun f => (f, Real)) (bundle en)) (pattr s) cfg (sess s) (bcache s) (testing_fails s)
-   else mkState None None None [] (pattr s) cfg (sess s) (bcache s) (junk s)).
+                (map (fun f => (f, Real)) (bundle en)) (pattr s) cfg (sess s) (bcache s) (bd s) (lastd s) (testing_fails s)
+   else mkState None None None [] (pattr s) cfg (sess s) (bcache s) (bd s) (lastd s) (junk s)).
 
 Definition exit_deactivates (k : exitkind) : bool :=
   match k with XNormal => true | _ => f_ctx_finally fa end.
@@ -389,24 +403,72 @@ Definition remember (e : string) (r : eobs * state) : eobs * state :=
   | (GSession e0 c0, s') => if mem e (f_cached fa) then (GSession e0 c0, set_bcache s' ((e, (e0, c0)) :: bcache s')) else r
   | _ => r
   end.
+(** dialect attributes of the engine's Builder *)
+Fixpoint dlook (e : string) (i : nat) (l : list (string * nat * nat)) : option nat :=
+  match l with
+  | [] => None
+  | (e', i', v) :: r => if String.eqb e e' && Nat.eqb i i' then Some v else dlook e i r
+  end.
+Definition default_of (e : string) (i : nat) : nat :=
+  match assoc e (f_defaults fa) with
+  | Some (a, (b, c)) => match i with 0 => a | 1 => b | _ => c end
+  | None => 0
+  end.
+Definition slot_of (e : string) (i : nat) (l : list (string * nat * nat)) : nat :=
+  match dlook e i l with Some v => v | None => default_of e i end.
+Definition dial_of (e : string) (l : list (string * nat * nat)) : nat * (nat * nat) :=
+  (slot_of e 0 l, (slot_of e 1 l, slot_of e 2 l)).
+(** Builder._set_config(key, value): the first branch of the elif chain whose key equals [k] *)
+Definition apply_key (e k : string) (v : nat) (l : list (string * nat * nat)) : list (string * nat * nat) :=
+  match assoc k (f_chain fa) with
+  | Some i => if i <? 3 then (e, i, v) :: l else l
+  | None => l
+  end.
+Definition apply_cfg (e : string) (cfg : list (string * nat)) (l : list (string * nat * nat)) :=
+  fold_left (fun acc p => apply_key e (fst p) (snd p) acc) cfg l.
+(** Builder._set_config(map=m): one `if K in map` test after the other *)
+Definition apply_map (e : string) (m : list (string * nat)) (l : list (string * nat * nat)) :=
+  fold_left (fun acc ks => match assoc (fst ks) m with
+                           | Some v => if snd ks <? 3 then (e, snd ks, v) :: acc else acc
+                           | None => acc
+                           end) (f_mapkeys fa) l.
+
+Definition goc_session (e : string) (s1 : state) : eobs * state :=
+  match (if mem e (f_cached fa) then assoc e (bcache s1) else None) with
+  | Some (e0, c0) => (GSession e0 c0, s1)
+  | None =>
+      match sess s1 with
+      | SPoisoned => (GUnknown, s1)
+      | SLive e0 c0 => if String.eqb e0 e || f_singleton_global fa then remember e (GSession e0 c0, s1)
+                       else remember e (create_session e s1)
+      | SNone => remember e (create_session e s1)
+      end
+  end.
+(** _set_session_properties writes the Builder's three dialects onto the session that is returned *)
+Definition note_dial (e : string) (r : eobs * state) : eobs * state :=
+  match r with
+  | (GSession e0 c0, s') => (GSession e0 c0, set_lastd s' (LSome (dial_of e (bd s'))))
+  | (GUnknown, s') => (GUnknown, set_lastd s' LUnknown)
+  | (o, s') => (o, set_lastd s' LNone)
+  end.
 Definition get_or_create (s : state) : eobs * state :=
   let '(o, s1) := import_sql s in
   match o with
   | EMod (SfPkg e) =>
-      if mem e (f_selfref fa) then (GRaise, s1)
-      else match (if mem e (f_cached fa) then assoc e (bcache s1) else None) with
-           | Some (e0, c0) => (GSession e0 c0, s1)
-           | None =>
-               match sess s1 with
-               | SPoisoned => (GUnknown, s1)
-               | SLive e0 c0 => if String.eqb e0 e || f_singleton_global fa then remember e (GSession e0 c0, s1)
-                                else remember e (create_session e s1)
-               | SNone => remember e (create_session e s1)
-               end
-           end
-  | EMod Real => (GReal, s1)
-  | EMod _ => (EError, s1)
-  | o' => (o', s1)
+      if mem e (f_selfref fa) then (GRaise, set_lastd s1 LNone)
+      else note_dial e (goc_session e (set_bd s1 (apply_cfg e (config s1) (bd s1))))   (* ACTIVATE_CONFIG is replayed first *)
+  | EMod Real => (GReal, set_lastd s1 LNone)
+  | EMod _ => (EError, set_lastd s1 LNone)
+  | o' => (o', set_lastd s1 LNone)
+  end.
+
+Definition builder_config (single : bool) (kv : list (string * nat)) (s : state) : eobs * state :=
+  let '(o, s1) := import_sql s in
+  match o with
+  | EMod (SfPkg e) =>
+      if mem e (f_selfref fa) then (ERaised, s1)
+      else (EOk, set_bd s1 (if single then apply_cfg e kv (bd s1) else apply_map e kv (bd s1)))
+  | _ => (EOk, s1)                      (* not activated: the harness does not touch the real PySpark's builder *)
   end.
 
 Definition load_functions (e : string) (s : state) : eobs * state :=
@@ -420,6 +482,8 @@ Definition step (s : state) (ev : event) : eobs * state :=
   | GetOrCreate => get_or_create s
   | Import fm p => do_import fm p s
   | LoadFunctions e => load_functions e s
+  | BuilderConfig single kv => builder_config single kv s
+  | ReadDialects => (match lastd s with LNone => EDial None | LUnknown => GUnknown | LSome d => EDial (Some d) end, s)
   end.
 
 (** observations of a run: the event's result and ACTIVATE_CONFIG after it *)
@@ -486,6 +550,8 @@ Definition accept (ss : sstate) (ev : event) (o : eobs) (cfg : list (string * na
       && forallb (fun p => cfg_has cfg (fst p) (snd p)) kv
   | Deactivate | CtxExit _ => match o with EOk => true | _ => false end
   | LoadFunctions _ => match o with EOk => true | _ => false end
+  | BuilderConfig _ _ => match o with EOk => true | _ => false end
+  | ReadDialects => true            (* judged by [accept_dial] *)
   | Import _ p =>
       if documented p then
         match active ss with
@@ -519,6 +585,60 @@ Fixpoint conforms (ss : sstate) (evs : list event) (obs : list (eobs * list (str
   | [], _ => true
   | ev :: r, (o, cfg) :: ro => accept ss ev o cfg && conforms (snext ss ev) r ro
   | _ :: _, [] => false
+  end.
+
+(** ** the dialect part of "the engine's session with the given ... config"
+    Judged on [ReadDialects] (the three dialect attributes of the session getOrCreate just returned):
+    a slot given in the config of the activation in force has that value; otherwise a slot set through
+    SparkSession.builder.config(...) during this activation has the latest such value; otherwise the value is the engine's
+    default or one that was given to this engine earlier (the Builder object outlives activations, as PySpark's does). *)
+Definition doc_slot (k : string) : option nat :=
+  if String.eqb k "sqlframe.input.dialect" then Some 0
+  else if String.eqb k "sqlframe.output.dialect" then Some 1
+  else if String.eqb k "sqlframe.execution.dialect" then Some 2
+  else None.
+Definition slots_of (kv : list (string * nat)) : list (nat * nat) :=
+  flat_map (fun p => match doc_slot (fst p) with Some i => [(i, snd p)] | None => [] end) kv.
+Fixpoint nassoc (i : nat) (l : list (nat * nat)) : option nat :=
+  match l with [] => None | (j, v) :: r => if Nat.eqb i j then Some v else nassoc i r end.
+Record dstate := mkD {
+  d_act : list (nat * nat);              (* slots given by the activation in force *)
+  d_bld : list (nat * nat);              (* slots given through builder.config since then, newest first *)
+  d_hist : list (string * nat * nat)     (* every (engine, slot, value) ever given *)
+}.
+Definition dinit : dstate := mkD [] [] [].
+Definition dnext (ss : sstate) (ds : dstate) (ev : event) : dstate :=
+  match ev with
+  | Activate e _ kv | CtxEnter e _ kv =>
+      mkD (slots_of kv) [] (d_hist ds ++ map (fun iv => (e, fst iv, snd iv)) (slots_of kv))
+  | Deactivate | CtxExit _ => mkD [] [] (d_hist ds)
+  | BuilderConfig _ kv =>
+      match active ss with
+      | Some (e, _) => mkD (d_act ds) (slots_of kv ++ d_bld ds) (d_hist ds ++ map (fun iv => (e, fst iv, snd iv)) (slots_of kv))
+      | None => ds
+      end
+  | _ => ds
+  end.
+Definition dhist_has (e : string) (i v : nat) (h : list (string * nat * nat)) : bool :=
+  existsb (fun x => match x with (e', i', v') => String.eqb e e' && Nat.eqb i i' && Nat.eqb v v' end) h.
+Definition slot_ok (ds : dstate) (e : string) (i v : nat) : bool :=
+  match nassoc i (d_act ds) with
+  | Some w => Nat.eqb v w
+  | None => match nassoc i (d_bld ds) with
+            | Some w => Nat.eqb v w
+            | None => Nat.eqb v (default_of e i) || dhist_has e i v (d_hist ds)
+            end
+  end.
+Definition accept_dial (ss : sstate) (ds : dstate) (ev : event) (o : eobs) : bool :=
+  match ev with
+  | ReadDialects =>
+      match active ss, o with
+      | Some (e, _), EDial (Some (a, (b, c))) =>
+          tainted (hist ss) || (slot_ok ds e 0 a && slot_ok ds e 1 b && slot_ok ds e 2 c)
+      | _, EDial _ => true
+      | _, _ => false
+      end
+  | _ => true
   end.
 
 (** the same without judging which session getOrCreate returns (imports, restoration, configuration only) *)
@@ -573,7 +693,7 @@ Definition step_ok (ss : sstate) (s : state) (ev : event) : bool :=
   | Activate e _ kv | CtxEnter e _ kv => act_ok e s && kv_wf kv
   | Deactivate => negb (deact_raises s)
   | CtxExit k => exit_deactivates k && negb (deact_raises s)
-  | GetOrCreate => match active ss with Some (e, _) => negb (mem e (f_selfref fa)) | None => true end
+  | GetOrCreate | BuilderConfig _ _ => match active ss with Some (e, _) => negb (mem e (f_selfref fa)) | None => true end
   | _ => true
   end.
 Fixpoint steps_ok (ss : sstate) (s : state) (evs : list event) : bool :=
@@ -644,6 +764,12 @@ Definition diagnose (ss : sstate) (s : state) (ev : event) : string :=
       | _, _ => "u"
       end
   | Activate _ _ _ | CtxEnter _ _ _ => "u"
+  | BuilderConfig _ _ => match active ss, model_active s with
+                         | Some (e, _), Some e' => if String.eqb e e' && mem e (f_selfref fa) then "P" else "u"
+                         | None, Some _ => "X"
+                         | _, _ => "u"
+                         end
+  | ReadDialects => "D"
   | LoadFunctions _ => match active ss, model_active s with
                        | None, Some _ => "X"
                        | None, None => if is_nil (config s) then "u" else "R"
@@ -661,6 +787,8 @@ Definition eobs_eqb (a b : eobs) : bool :=
   | EMod (Mock _), EMod (Mock _) => true          (* the harness cannot tell which activation made a MagicMock *)
   | EMod x, EMod y => modref_eqb x y
   | GSession e c, GSession e' c' => String.eqb e e' && optnat_eqb c c'
+  | EDial None, EDial None => true
+  | EDial (Some (a, (b, c))), EDial (Some (a', (b', c'))) => Nat.eqb a a' && Nat.eqb b b' && Nat.eqb c c'
   | _, _ => false
   end.
 Definition cfg_eqb (a b : list (string * nat)) : bool :=
@@ -668,7 +796,7 @@ Definition cfg_eqb (a b : list (string * nat)) : bool :=
 
 (** per step three characters: impl = model ("1"/"0"/"u" when the model abstains), spec accepts impl ("1"/"0"),
     diagnosis letter of the step *)
-Fixpoint verdict (ss : sstate) (s : state) (evs : list event) (obs : list (eobs * list (string * nat))) : string :=
+Fixpoint verdict (ss : sstate) (ds : dstate) (s : state) (evs : list event) (obs : list (eobs * list (string * nat))) : string :=
   match evs, obs with
   | ev :: r, (o, cfg) :: ro =>
       let '(mo, s1) := step s ev in
@@ -676,8 +804,8 @@ Fixpoint verdict (ss : sstate) (s : state) (evs : list event) (obs : list (eobs 
                | GUnknown => "u"
                | _ => if eobs_eqb mo o && cfg_eqb (config s1) cfg then "1" else "0"
                end in
-      let a := if accept ss ev o cfg then "1" else "0" in
-      (m ++ a ++ diagnose ss s ev ++ verdict (snext ss ev) s1 r ro)%string
+      let a := if accept ss ev o cfg && accept_dial ss ds ev o then "1" else "0" in
+      (m ++ a ++ diagnose ss s ev ++ verdict (snext ss ev) (dnext ss ds ev) s1 r ro)%string
   | [], [] => ""
   | _, _ => "!"
   end.
@@ -693,7 +821,7 @@ Definition check (fa : facts) (c : tcase) : string :=
    ++ b (conforms fa (c_env c) sinit (c_evs c) (fst (run fa (c_env c) init_state (c_evs c))))
    ++ b (in_domain0 fa (c_env c) (c_evs c))
    ++ b (conforms0 fa (c_env c) sinit (c_evs c) (fst (run fa (c_env c) init_state (c_evs c))))
-   ++ ":" ++ verdict fa (c_env c) sinit init_state (c_evs c) (c_obs c))%string.
+   ++ ":" ++ verdict fa (c_env c) sinit dinit init_state (c_evs c) (c_obs c))%string.
 
 (** the (file, pyspark name, sqlframe name) triples activate(e) registers in a fresh interpreter *)
 Definition reg_table (fa : facts) (e : string) : list (string * (string * string)) :=
